@@ -261,6 +261,18 @@ def m_conflicted_blocks_rmdir(f, case, viol):
                     both.setdefault(v[3], set()).add(v[1])
             if any(len(sd) == 2 for sd in both.values()):
                 cands.add(D)
+    # second form (C06 seed 22 of the 250 000-run surveys): the OTHER user has put a new object below D and the engine has not been
+    # quiet since - the delete of D meets a child the state does not know (yet); same loop
+    plan = case.get("plan", [])
+    for i, u in enumerate(plan):
+        if u and u[0] == "U" and u[2] in ("rmtree", "rmdir"):
+            D = u[3]
+            for j in range(i - 1, -1, -1):
+                v = plan[j]
+                if _quiet(v):
+                    break
+                if v and v[0] == "U" and v[1] != u[1] and v[2] in ("create", "mkdir") and v[3].startswith(D + "/"):
+                    cands.add(D)
     if not cands:
         return False
     if viol["cls"] == "nonquiescent":
